@@ -43,13 +43,12 @@ var robustExtremes = []interface{}{
 
 var robustPaths = []string{"", ".", "a.", ".a", "a..b", "a.0", "a.-1", "a.+1", "a.01", "a.9223372036854775807", "a.9223372036854775808",
 	"a.99999999999999999999", "a.$", "a.$[]", "$[x]", "a.$[x].b", "a.$[].$[]", "a.$[x", "$", "$.a", "a.$.b.$", "_id", "_id.a", "a.b.c.d",
-	"a.1000", "a.b", "a", "b", "x.0.a"}
+	"a.1000", "a.b", "a", "b", "x.0.a", "a.1600000", "a.1000000000000", "a.5000000.b", "a.0.4000000"}
 
-// Not generated because the process would not survive (both are C20 findings, confirmed by scratch runs):
-//   * array indexes far beyond the array ("a.1000000000000"): bsonkit.put pads with nil in an unbounded append loop
-//     until the runtime dies with "fatal error: out of memory" ("a.5000000" already takes ~20 s);
-//   * limits between about 2^33 and 2^47 (Find / CountDocuments): bsonkit.Select does make(List, 0, limit), which is a
-//     fatal out-of-memory error; limits >= 2^47 give the recoverable "makeslice: cap out of range" and ARE generated.
+// Generated since the repairs dd0d6c6 / 01b6335 (before them the process did not survive: both were C20 findings):
+//   * array indexes far beyond the array ("a.1000000000000"): bsonkit.put padded with nil in an unbounded append loop
+//     until the runtime died with "fatal error: out of memory" ("a.5000000" took ~20 s); now rejected above MaxArrayPadding;
+//   * limits between about 2^33 and 2^47 (Find / CountDocuments): bsonkit.Select did make(List, 0, limit).
 
 // Not generated (outside the domain of C20): keys / paths containing a NUL byte. BSON cannot encode them (the
 // driver answers "BSON element key cannot contain null bytes"); at the bsonkit level the string "\x00" IS the
@@ -325,7 +324,7 @@ func robustArrayFilters(r *gen.R) bsonkit.List {
 }
 
 func robustInt(r *gen.R) int {
-	return []int{0, 1, 2, -1, -2, math.MinInt64, math.MaxInt64, math.MaxInt64 - 1, math.MinInt64 + 1, 3}[r.N(10)]
+	return []int{0, 1, 2, -1, -2, math.MinInt64, math.MaxInt64, math.MaxInt64 - 1, math.MinInt64 + 1, 3, 1 << 33, 1 << 40, 1 << 45, 1 << 47}[r.N(14)]
 }
 
 // robustGuard runs f under recover() and a watchdog; returns the outcome class.
